@@ -675,6 +675,8 @@ pub mod verif_hooks {
   }
   /// The unmodified RealDriver (real poll registry, readers and writer) over descriptors the harness has opened
   /// (socket pairs and pipes instead of /dev/input nodes and /dev/uinput), run by the unmodified loop.
+  /// Under its own flag: it names RealDriver's fields, so a restructuring of the driver costs this hook only.
+  #[cfg(ellbur_totalmapper_verif_real)]
   pub fn run_real_driver_on_fds(keyboard: std::os::unix::io::RawFd, virtual_keyboard: std::os::unix::io::RawFd, tablet_switch: Option<std::os::unix::io::RawFd>, layout: Layout, verbose: bool) -> Result<(), String> {
     let mut driver = super::RealDriver { rw: super::RW {
       r: crate::dev_input_rw::DevInputReader { fd: keyboard },
